@@ -601,6 +601,39 @@ def c14(a):
         file_verdicts(v, p, verdicts, what)
     v.notes.append("direction B: chains of 9..250 operands (sizes 31-33, 63-66, 127-130, 191-194, 249, 250; TLC's JSON reader nests at most 255 deep) with ascending, descending, "
                    "alternating, inside-out, random and strided priority patterns (up to 90 priority levels, ties beyond), judged from the text")
+    # (4) very long levels (beyond what TLC's JSON reader can take as a tree): flat and deep evaluation of the same text over f64
+    # must both succeed and agree bit for bit; one process per case, judged by TLC (Judge_Threads, rule of `feval`)
+    sizes = [65, 129, 1025, 2047, 2048, 2049, 2050, 3000] + ([] if q else [4097, 6000])
+    def one_big(c):
+        nn, op = c
+        p = vlib.run_recorder(["longchain", "--n", str(nn), "--op", op, "--act", "agree"], timeout=600)
+        out = p.stdout.decode().strip()
+        return c, p.returncode, (json.loads(out) if out else None)
+    big = parallel([(lambda c=c: one_big(c)) for c in [(nn, op) for nn in sizes for op in ("mix", "-")]], 8)
+    tr = work("C14", "bigchains.ndjson")
+    with open(tr, "w") as f:
+        f.write(json.dumps({"table": []}) + "\n")
+        k = 0
+        for (nn, op), rc, rec in big:
+            v.cov["traces_validated_against_impl"] += 1
+            v.cov["evaluations"] += 2
+            if rec is None or rec.get("outcome") != "ok" or "flat" not in rec:
+                v.violation({"longchain": {"n": nn, "op": op, "act": "agree", "rc": rc, "record": rec}},
+                            f"{what}: a level of {nn} operands (`x0{'*' if op == 'mix' else op}x1{'-' if op == 'mix' else op}...`) could not be evaluated in "
+                            f"the flat and the deep form: {'aborted' if rec is None else rec.get('outcome')} (rc={rc})")
+                continue
+            for half in (0, 2):
+                k += 1
+                f.write(json.dumps({"case": k, "tid": nn, "act": "feval", "hi": rec["deep"][half], "lo": rec["deep"][half + 1],
+                                    "seq_hi": rec["flat"][half], "seq_lo": rec["flat"][half + 1], "n": nn, "op": op}) + "\n")
+    if k:
+        r, verdicts = pipeline.judge_expr(tr, "C14-j-bigchains", module="Judge_Threads")
+        v.add_tlc(r, "Judge_Threads[bigchains]")
+        for case, (cls, verdict, act) in verdicts.items():
+            if verdict != "ok":
+                v.violation({"case": case}, f"{what}: flat and deep evaluation of a very long level differ ({verdict})")
+    v.notes.append(f"very long levels: {len(big)} texts of {sizes} operands (alternating priorities / one operator) evaluated in the flat and the "
+                   "deep form over f64, one process each; both must succeed and agree bit for bit")
     v.cov["rule"] = "all permutations of application order for <= 8/9 operands (exhaustive) + structured/random orders for long chains"
     v.cov["distinct_nontrivial"] = summ.get("cases", 0)
     v.cov["exhaustive"] = True
@@ -910,7 +943,7 @@ def stmts_coverage(v, pid, tier):
     if nlines != summ["runs"]:
         raise vlib.ToolError(f"Judge_Stmts: {summ['runs']} lines recorded but {nlines} verdicts parsed")
     v.cov["statement_sessions"] = dict(stats, sessions=summ["cases"])
-    v.notes.append(f"statement store (Stmts.tla, beyond the listed properties): all {summ['cases']} sessions of <= {3 if q else 4} lines over 20 lines "
+    v.notes.append(f"statement store (Stmts.tla, beyond the listed properties): all {summ['cases']} sessions of <= {3 if q else 4} lines over 23 lines "
                    f"(assignment of values / expressions, re-assignment, evaluation of bound, unbound and transitively bound names, unsupported "
                    f"and malformed lines) replayed through line_2_statement + Statements and trace-validated: {stats}")
 
@@ -923,9 +956,20 @@ def c06(a):
     # (1) all token sequences: no failure state in the models, accepted iff well-formed, meaning preserved; replayed
     tag = "C06/mctok"
     cfg = work(tag + ".cfg")
-    write_cfg(cfg, {"MaxLen": 7 if q else 8, "Emit": True, "CallStack": True, "BumpGuard": True, "FoldRule": "local"},
+    # replay of every sequence up to length 7 (2.4 M sequences x 7 entry points); the thorough tier additionally model-checks
+    # length 8 (19 M sequences) without replay - replaying those takes over an hour
+    write_cfg(cfg, {"MaxLen": 7, "Emit": True, "CallStack": True, "BumpGuard": True, "FoldRule": "local"},
               invariants=["AcceptIffWellFormed", "NoFailureState", "Meaning", "SloppyAgree", "EmitCases"])
-    res, summ, obsp = pipeline.gen_replay_shard("MC_Tok", cfg, tag, ["expr", "--totality", "--entries", "flat,flat_wo,flat_re,deep,f2d,d2f,f2d2f"], workers=16)
+    if not q:
+        cfg8 = work(tag + "8.cfg")
+        write_cfg(cfg8, {"MaxLen": 8, "Emit": False, "CallStack": True, "BumpGuard": True, "FoldRule": "local"},
+                  invariants=["AcceptIffWellFormed", "NoFailureState", "Meaning", "SloppyAgree"])
+        r8 = vlib.run_tlc("MC_Tok", cfg8, "C06-mctok8", workers=16, timeout=7200, heap="12g")
+        if not r8.ok:
+            print(r8.out[-3000:])
+            raise vlib.ToolError(f"MC_Tok (length 8, model only): {r8.violated or r8.error} - spec bug")
+        v.add_tlc(r8, "MC_Tok[length 8, model only]")
+    res, summ, obsp = pipeline.gen_replay_shard("MC_Tok", cfg, tag, ["expr", "--totality", "--entries", "flat,flat_wo,flat_re,deep,f2d,d2f,f2d2f"], workers=16, timeout=7200)
     if res.violated or res.error:
         print(res.out[-3000:])
         raise vlib.ToolError(f"MC_Tok: {res.violated or res.error} - spec bug")
@@ -942,7 +986,7 @@ def c06(a):
     cfg = work(tag + ".cfg")
     write_cfg(cfg, {"T": ("<-", "TStr"), "Alphabet": ("<-", "AStr"), "MaxLen": 5 if q else 6, "Emit": True, "CallStack": True,
                     "BumpGuard": True}, invariants=["LexAgree", "CallAgree", "NoPanic", "EmitCases"])
-    res, summ, obsp = pipeline.gen_replay_shard("MC_Lex", cfg, tag, ["expr", "--totality", "--entries", ALL_ENTRIES], workers=16)
+    res, summ, obsp = pipeline.gen_replay_shard("MC_Lex", cfg, tag, ["expr", "--totality", "--entries", ALL_ENTRIES], workers=16, timeout=7200)
     if res.violated or res.error:
         print(res.out[-3000:])
         raise vlib.ToolError(f"MC_Lex(TStr): {res.violated or res.error} - spec bug")
@@ -954,7 +998,7 @@ def c06(a):
         raise vlib.ToolError(f"tally mismatch: TLC enumerated {res.distinct - 1} strings, the recorder replayed {summ['cases']}")
     if summ["forwarded"]:
         judge_and_classify(v, "C06", [obsp], "dirA-str", what)
-    v.notes.append(f"direction A: all {ntok} token sequences up to length {7 if q else 8} over 8 token kinds and all {nstr} character strings up "
+    v.notes.append(f"direction A: all {ntok} token sequences up to length 7 over 8 token kinds (thorough: length 8 model-checked as well, 19 M sequences) and all {nstr} character strings up "
                    f"to length {5 if q else 6} over 14 characters (letters, digit, dot, blank, parens, comma, braces, operators, an illegal "
                    f"character, a 2-byte and a 4-byte code point) through every entry point ({ALL_ENTRIES}) with follow-up evaluation, "
                    "conversion, unparse, listings and differentiation; tallies equal the TLC state counts")
@@ -1153,7 +1197,7 @@ def finish_calc(v, rule, sample):
 def c10(a):
     v = Verdict("C10", a.tier, "model_checking")
     q = a.tier == "quick"
-    calc_pipeline(v, "C10", a.tier, ["op", "std", "conv"], 1 if q else 2, ["ops", "mixed", "manyvars"], {"op_un", "op_bin", "std"},
+    calc_pipeline(v, "C10", a.tier, ["op", "std", "conv"], 1 if q else 2, ["ops", "mixed", "manyvars", "advnames"], {"op_un", "op_bin", "std"},
                   "operator application is not a homomorphism", 400 if q else 6000)
     # all two-call histories of the overloaded operators / helpers: shortcuts feeding shortcuts (a zero that still carries variables)
     calc_pipeline(v, "C10b", a.tier, ["std"], 2, [], {"std"}, "operator application is not a homomorphism", 0)
